@@ -124,6 +124,20 @@ pub fn gen_row_cols(rng: &mut Rng, lg_k: u8, max: usize, union_safe: bool) -> Ve
             // at most 55 full columns: the window offset is defined up to 56, i.e. C < (27/8 + 56) K
             let cols = 1 + rng.below(if lg_k <= 6 { 55 } else { 12 }) as u32;
             let mut rows: Vec<u32> = (0..k).collect();
+            // one fill in three first sets a band far to the right (a column, for a quarter, half or
+            // all of the rows): a large table of surprising ones that a later window move absorbs
+            // wholesale, leaving the table oversized for the few entries that remain
+            if cols >= 3 && rng.chance(1, 3) {
+                let cb = 8 + rng.below(cols as u64 - 1) as u32;
+                let part = *rng.pick(&[4u32, 2, 1]);
+                rng.shuffle(&mut rows);
+                for &r in rows.iter().take((k / part).max(1) as usize) {
+                    if out.len() >= max {
+                        break;
+                    }
+                    out.push(rc(r, cb.min(63)));
+                }
+            }
             'o: for c in 0..cols {
                 rng.shuffle(&mut rows);
                 for &r in &rows {
